@@ -90,7 +90,28 @@ fn lens_of(sc: &Value) -> Vec<usize> {
 }
 
 /// runs the threads; returns (ret, blocked-steps)
+/// the shared file writer as LogWriter of a Logger
+struct ArcW(flexi_logger::writers::ArcFileLogWriter);
+impl flexi_logger::writers::LogWriter for ArcW {
+    fn write(&self, now: &mut flexi_logger::DeferredNow, record: &log::Record) -> std::io::Result<()> {
+        flexi_logger::writers::LogWriter::write(&*self.0, now, record)
+    }
+    fn flush(&self) -> std::io::Result<()> {
+        flexi_logger::writers::LogWriter::flush(&*self.0)
+    }
+    fn max_log_level(&self) -> log::LevelFilter {
+        log::LevelFilter::Trace
+    }
+    fn shutdown(&self) {
+        flexi_logger::writers::LogWriter::shutdown(&*self.0)
+    }
+}
+
 fn drive(sc: &Value, logger: Arc<Box<dyn Log>>) -> (String, Vec<Value>) {
+    drive2(sc, logger, None)
+}
+/// `raw`: every second line of a thread is written through the io::Write interface of the same file writer
+fn drive2(sc: &Value, logger: Arc<Box<dyn Log>>, raw: Option<flexi_logger::writers::ArcFileLogWriter>) -> (String, Vec<Value>) {
     let kind = sc["kind"].as_str().unwrap_or("stress");
     let lens = lens_of(sc);
     let mut blocked = Vec::new();
@@ -102,13 +123,21 @@ fn drive(sc: &Value, logger: Arc<Box<dyn Log>>) -> (String, Vec<Value>) {
         for tid in 1..=t {
             let lg = logger.clone();
             let lens = lens.clone();
+            let mut raw = raw.clone();
             hs.push(
                 std::thread::Builder::new()
                     .name(format!("p{tid}"))
                     .spawn(move || {
                         catch_unwind(AssertUnwindSafe(|| {
                             for seq in 1..=r {
-                                log_one(&**lg, tid, seq, lens[((tid * 7 + seq) as usize) % lens.len()]);
+                                let len = lens[((tid * 7 + seq) as usize) % lens.len()];
+                                match raw.as_mut() {
+                                    Some(w) if seq % 2 == 0 => {
+                                        let line = format!("{}\n", obs::message(tid * 100_000 + seq, len.max(9), 1));
+                                        let _ = std::io::Write::write_all(w, line.as_bytes());
+                                    }
+                                    _ => log_one(&**lg, tid, seq, len),
+                                }
                             }
                         }))
                         .map_err(panic_msg)
@@ -271,10 +300,29 @@ pub fn run(args: &[String]) {
             flw::set_error_channel(&errfile);
             let failfmt = sc["failfmt"].as_bool().unwrap_or(false);
             FAILFMT.store(failfmt, Ordering::SeqCst);
-            match build2(&cfg, "file", &dir, &errfile, failfmt) {
+            let rawmix = sc["rawmix"].as_bool().unwrap_or(false);
+            let mut rawarc = None;
+            let built = if rawmix {
+                // records through LogWriter::write (a Logger in front) and raw lines through io::Write on ONE file writer
+                flw::flw_builder(&cfg, &dir, None)
+                    .try_build_with_handle()
+                    .map_err(|e| format!("{e:?}"))
+                    .and_then(|(arc, fh)| {
+                        rawarc = Some((arc.clone(), fh));
+                        Logger::with(LogSpecification::trace())
+                            .log_to_writer(Box::new(ArcW(arc)))
+                            .error_channel(ErrorChannel::File(errfile.to_path_buf()))
+                            .build()
+                            .map_err(|e| format!("{e:?}"))
+                    })
+            } else {
+                build2(&cfg, "file", &dir, &errfile, failfmt)
+            };
+            match built {
                 Ok((logger, handle)) => {
                     let logger = Arc::new(logger);
-                    let (ret, blocked) = drive(&sc, logger.clone());
+                    let (ret, blocked) = drive2(&sc, logger.clone(), rawarc.as_ref().map(|x| x.0.clone()));
+                    drop(rawarc.take());
                     let r2 = catch_unwind(AssertUnwindSafe(|| {
                         handle.shutdown();
                         drop(handle);
